@@ -315,7 +315,7 @@ def run(ctx: common.Ctx):
                 "fresh names.  Non-trivial = at least one template present / a colliding or prefixed name; distinct by full input.")
     ctx.assumptions = [
         "Jinja's PackageLoader lists and loads files as documented; FileSystemLoader.list_templates/get_source over a directory list ARE modelled (union, sorted; first hit) and tied in stream C2; streams C/D/F still start from the loaders' listings",
-        "user directories in the enumeration stream hold regular files only (no symbolic-linked sub-directories, no directory named *.j2: get_templates() globs, the loader walks)",
+        "user directories in the enumeration stream hold regular files only (no directory named *.j2: get_templates() globs and would list it, the loader walks files)",
         "template sets do not change between look-ups on one loader object",
         "class names are ASCII (the translator refuses anything else)",
         "user callables are plain functions (no language-filter annotation)",
@@ -651,7 +651,7 @@ def run(ctx: common.Ctx):
                      {"stream": "order", "files": files, "shuffled": sh, "query": target.__name__, "a": str(a), "b": str(b)})
 
     phase("C")
-    msets = run_multidir_stream(ctx, ask, table_classes, index_of, by_name, jenv)
+    msets = run_multidir_stream(ctx, ask, table_classes, index_of, by_name, jenv, corpus)
     phase("C2")
     # ================================================================================================================
     # D. synthetic hierarchies: the loop itself (multiple inheritance, shared names, duplicate stems)
@@ -1145,7 +1145,7 @@ def multidir_case(ctx, ms, mode, seq, index_of, by_name, jenv, check_enum):
     return out
 
 
-def run_multidir_stream(ctx, ask, table_classes, index_of, by_name, jenv):
+def run_multidir_stream(ctx, ask, table_classes, index_of, by_name, jenv, corpus=()):
     """Every class x (class, one ancestor) x every distribution of the two templates over 1-3 user directories and the
     package, plus random distributions over whole chains, cold and warm; enumeration against resolution."""
     import pydsdl
@@ -1165,6 +1165,21 @@ def run_multidir_stream(ctx, ask, table_classes, index_of, by_name, jenv):
         return [s | {"p"} for s in subs] + subs if with_pkg else subs
 
     under = [c for c in table_classes if issubclass(c, pydsdl.Any)]
+    # corpus first
+    for c in corpus:
+        if c.get("stream") != "lookup-dirs":
+            continue
+        stems = {pathlib.PurePosixPath(r).stem for d in c["dirs"] for r in d} | set(c["builtin"])
+        if any(n not in by_name for n in list(stems) + c["warm"] + [c["query"]]) or len(c["dirs"]) not in msets:
+            continue
+        ms = msets[len(c["dirs"])]
+        ms.clear()
+        for n in stems:
+            ms.set(n, frozenset([i for i, d in enumerate(c["dirs"]) if n + SUFFIX in d] + (["p"] if n in c["builtin"] else [])))
+        for ln, im in multidir_case(ctx, ms, c.get("mode", "both"), [by_name[n] for n in c["warm"]] + [by_name[c["query"]]], index_of, by_name, jenv, check_enum=True):
+            lines.append(ln)
+            impls.append(im)
+        ctx.count("corpus-lookup-dirs")
     for ci, target in enumerate(under):
         chain = chain_to_any(target)
         pairs = list(dict.fromkeys([(chain[0], a) for a in (chain[1:2] + chain[-1:]) if a is not chain[0]]))
